@@ -1935,3 +1935,35 @@ def deferonce(F, R):
         R.ob('C05.defer-once', not always, {'func': f.q, 'machine': Facts.short(m.fe, 60), 'event': Facts.short(ev, 40), 'regions_deferring': [Facts.short(x, 40) for x in pair]})
         if always:
             R.find('C05.defer-once', f, 'per-region:' + be, 'the deferral cell stores the event on every path, and it is the cell of every region whose active state defers the event: in %s the states %s and %s of two regions both defer %s, which is then stored twice and later dispatched twice' % (Facts.short(m.fe, 50), Facts.short(pair[0], 40), Facts.short(pair[1], 40), Facts.short(ev, 40)), instance='%s / %s' % (Facts.short(m.fe, 100), Facts.short(ev, 60)))
+
+@rule('basethunk')
+def basethunk(F, R):
+    """C18.base-ref (back, back11): a dispatch cell that calls a transition whose trigger is not the event's own type goes through a
+    thunk.  For a Kleene trigger the thunk builds the `any` (a copy of the event with its dynamic type inside); for a trigger that
+    is a BASE CLASS of the event the transition must receive the submitted object itself, converted by reference - a thunk that
+    constructs an object of the trigger type from it hands guard, exit, action and entry a sliced copy (dynamic type, derived payload
+    and object identity lost)."""
+    from rules_core import backend_of
+    M = Model(F)
+    for f in F.funcs:
+        be = backend_of(f)
+        if be not in ('back', 'back11') or not f.blocks or f.n != 'execute' or not f.file.endswith('/dispatch_table.hpp'): continue
+        if 'dispatch_table' not in f.classes or f.cls == 'dispatch_table': continue
+        da = f.cls_args('dispatch_table'); ta = f.cls_args(f.cls)
+        if not da or len(da) < 3 or not ta: continue
+        ev = strip_cvref(str(da[2])); tr = strip_cvref(str(ta[0]))
+        rec = F.rec_by_type(tr)
+        if not rec or 'transition_event' not in rec['tds']: continue
+        trig = strip_cvref(F.strs[rec['tds']['transition_event']])
+        if trig == ev or M.is_kleene(trig): continue
+        calls = [(i, n) for i, n in f.calls() if n.get('n') == 'execute' and len(n.get('args', [])) >= 4]
+        if not calls: continue
+        R.seen(f); R.anchor('base-trigger-thunk:' + be)
+        pnames = {p['n'] for p in f.d['params']}
+        for i, n in calls:
+            x = f.nodes[n['args'][3]]
+            while x and x['k'] in ('icast', 'cast', 'paren') and x.get('ck') in (None, 'DerivedToBase', 'UncheckedDerivedToBase', 'NoOp', 'LValueToRValue'): x = f.nodes[x['e']]
+            ok = bool(x) and x['k'] == 'ref' and x.get('dk') == 'param' and x['n'] in pnames
+            R.ob('C18.base-ref', ok, {'func': f.q, 'event': Facts.short(ev, 40), 'trigger': Facts.short(trig, 40), 'passes': f.expr(n['args'][3])})
+            if not ok:
+                R.find('C18.base-ref', f, 'sliced-copy:' + be, 'the cell thunk %s hands a transition triggered by %s - a base class of the processed event %s - the expression %s instead of the submitted event itself: guard, exit, action and entry receive a sliced copy (dynamic type, derived payload and identity lost)' % (f.cls, Facts.short(trig, 40), Facts.short(ev, 40), f.expr(n['args'][3])), where=f.at(i), instance='%s / %s' % (Facts.short(tr, 100), Facts.short(ev, 40)))
